@@ -135,6 +135,10 @@ func NewSchema(config SchemaConfig) (Schema, error) {
 		}
 	}
 
+	// Build the possible-type table now: every copy of the schema shares this
+	// map, so it must not be extended while requests are being served.
+	schema.possibleTypeMap = buildPossibleTypeMap(&schema)
+
 	// Add extensions from config
 	if len(config.Extensions) != 0 {
 		schema.extensions = config.Extensions
@@ -176,7 +180,28 @@ func (gq *Schema) AddImplementation() error {
 		}
 	}
 
+	// the type map changed: rebuild the possible-type table as a whole
+	gq.possibleTypeMap = buildPossibleTypeMap(gq)
+
 	return nil
+}
+
+// buildPossibleTypeMap computes, for every abstract type of the schema, the set
+// of object type names it can resolve to.
+func buildPossibleTypeMap(gq *Schema) map[string]map[string]bool {
+	possibleTypeMap := map[string]map[string]bool{}
+	for _, ttype := range gq.typeMap {
+		abstractType, ok := ttype.(Abstract)
+		if !ok {
+			continue
+		}
+		typeMap := map[string]bool{}
+		for _, possibleType := range gq.PossibleTypes(abstractType) {
+			typeMap[possibleType.Name()] = true
+		}
+		possibleTypeMap[abstractType.Name()] = typeMap
+	}
+	return possibleTypeMap
 }
 
 //Edited. To check add Types at RunTime..
@@ -252,7 +277,10 @@ func (gq *Schema) IsPossibleType(abstractType Abstract, possibleType *Object) bo
 		possibleTypeMap[abstractType.Name()] = typeMap
 	}
 
-	gq.possibleTypeMap = possibleTypeMap
+	if gq.possibleTypeMap == nil {
+		// only a schema value that was not built by NewSchema gets here
+		gq.possibleTypeMap = possibleTypeMap
+	}
 	if typeMap, ok := possibleTypeMap[abstractType.Name()]; ok {
 		isPossible, _ := typeMap[possibleType.Name()]
 		return isPossible
